@@ -530,16 +530,16 @@ def check_aref(ctx, db):
 
 def run(ctx):
     db = ctx.db
-    check_tables(ctx, db)
-    check_enum_tables(ctx, db)
-    check_units(ctx, db)
-    check_offsets(ctx, db)
-    check_aref(ctx, db)
-    C03.check_xy_continuation(ctx, db)   # a boundary split over several XY records re-loads completely
-    C03.check_element_buffers(ctx, db)   # one PATH record per element, from a scratch array emptied per element
-    C03.check_reader_state(ctx, db)
+    ctx.attempt(check_tables, ctx, db)
+    ctx.attempt(check_enum_tables, ctx, db)
+    ctx.attempt(check_units, ctx, db)
+    ctx.attempt(check_offsets, ctx, db)
+    ctx.attempt(check_aref, ctx, db)
+    ctx.attempt(C03.check_xy_continuation, ctx, db)# a boundary split over several XY records re-loads completely
+    ctx.attempt(C03.check_element_buffers, ctx, db)# one PATH record per element, from a scratch array emptied per element
+    ctx.attempt(C03.check_reader_state, ctx, db)
     from . import C07   # FlexPath::to_gds starts with remove_overlapping_points: re-saving a loaded path must not merge grid-adjacent vertices
-    C07.check_bookkeeping(ctx, db)      # element-scoped reader state (WIDTH, ...) does not leak into the next element
+    ctx.attempt(C07.check_bookkeeping, ctx, db)# element-scoped reader state (WIDTH, ...) does not leak into the next element
 
 
 MANIFEST = dict(
